@@ -79,7 +79,7 @@ with tempfile.TemporaryDirectory() as d:
     th = threading.Thread(target=srv.serve_forever, kwargs={'poll_interval': 0.01}, daemon=True)
     th.start()
     c = socket.socket(socket.AF_INET, socket.SOCK_DGRAM); c.settimeout(3)
-    c.sendto(b'\0\1f.txt\0netascii\0blksize\0' + b'16\0', srv.server_address)
+    c.sendto(b'\0\1f.txt\0' + %(mode)r.encode() + b'\0blksize\0' + b'16\0', srv.server_address)
     got, kind = b'', None
     try:
         pkt, peer = c.recvfrom(70000)
@@ -103,8 +103,8 @@ print(json.dumps(out))
 '''
 
 
-def fresh_server(entry, content):
-    code = FRESH_SERVER % dict(entry=entry, content=content.hex())
+def fresh_server(entry, content, mode='netascii'):
+    code = FRESH_SERVER % dict(entry=entry, content=content.hex(), mode=mode)
     p = subprocess.run([lib.PY, '-c', code], env=lib.repo_env(), capture_output=True, text=True, timeout=60)
     if p.returncode != 0:
         return {'kind': 'CRASH', 'stderr': p.stderr[-800:]}
@@ -317,10 +317,15 @@ def run(ctx, build):
     files = [b'line1\nline2\r\n\0end', b'x' * 16, b'', b'caf\xc3\xa9\n', b'# caf\xe9 settings\nkey=value\n' + b'z' * 40 + b'\xff\n']
     if ctx.thorough:
         files += [bytes(rng.choice([13, 10, 97]) for _ in range(200))]
+    # the mode string is case-insensitive (RFC 1350): a request spelled NETASCII / NetAscii is a netascii request
+    spellings = ['netascii', 'NETASCII', 'NetAscii']
     for entry in ('server', 'tftpd'):
-        for content in files:
-            r = fresh_server(entry, content)
-            ctx.case(('fresh', entry, content), True, 'fresh-server')
+        for k, content in enumerate(files):
+            mode = spellings[(k + (entry == 'tftpd')) % 3] if not ctx.thorough else ctx.rng.choice(spellings)
+            r = fresh_server(entry, content, mode)
+            r['mode_spelling'] = mode
+            ctx.case(('fresh', entry, content, mode), True, 'fresh-server')
+            ctx.stat('fresh-server-mode-' + mode)
             ascii_ok = all(c < 128 for c in content)
             if r.get('lookup') != 'ok':
                 ctx.violation('fresh-server/codec-not-registered',
